@@ -43,7 +43,9 @@ def tasks_for(prop, tier):
     out = []
     for name, c in sorted(reg.items()):
         if prop in c.get('props', []) and not c.get('abstract'):
-            out.append({'function': name, 'tier': tier})
+            n = int(c.get('chunks', 1))
+            for i in range(n):          # the obligations of one function can be discharged by several processes
+                out.append({'function': name, 'tier': tier, 'chunk': [i, n]})
     return out
 
 
@@ -80,10 +82,13 @@ def run_contract(task, budget_s=120):
     tmo = c.get('timeout_ms', 10000)
     rounds = c.get('rounds', 2)
     counts = {}
-    for ob in obls:
+    ci, cn = task.get('chunk') or [0, 1]
+    for oi, ob in enumerate(obls):
         k = counts.get(ob.name, 0)
         counts[ob.name] = k + 1
         nm = ob.name if k == 0 else '%s#%d' % (ob.name, k)
+        if oi % cn != ci:
+            continue
         if time.time() > t_end:
             out['obligations'].append({'name': nm, 'status': 'undecided', 'why': 'function budget exhausted', 'kind': ob.kind})
             continue
@@ -103,7 +108,7 @@ def run_contract(task, budget_s=120):
             rec['why'] = r.get('why')
         out['obligations'].append(rec)
     # vacuity canary: `false` must NOT follow from the preconditions (+ axioms)
-    if c.get('kind') != 'lemma':
+    if c.get('kind') != 'lemma' and ci == 0:
         can = core.Obligation('canary', gen.pre_hyps, core.atom(z3.BoolVal(False)), 'canary')
         r = solve.discharge(can, timeout_ms=5000, rounds=1)
         out['canary_proved'] = (r['status'] == 'proved')
